@@ -505,14 +505,17 @@ def rule_r4(chk, prog, rid='C05.R4'):
         n = expr_owner_node(cfg, node)
         RD = reaching_defs(cfg, params_of(f))
         # the fact: check_exprs(V) true, directly or through a local
-        checked = None
-        for (t, pol) in facts:
+        cands = []
+        for (t, pol) in sorted(facts):
             if not pol:
                 continue
-            e = ast.parse(t, mode='eval').body
+            try:
+                e = ast.parse(t, mode='eval').body
+            except SyntaxError:
+                continue
             if isinstance(e, ast.Call) and (call_name(e) or '').endswith(
                     'check_exprs') and e.args:
-                checked = (unparse(e.args[0]), None)
+                cands.append((unparse(e.args[0]), None))
             if isinstance(e, ast.Name):
                 ds = (RD.get(n) or {}).get(e.id) or ()
                 ds = [d for d in ds if d != 'param']
@@ -521,26 +524,30 @@ def rule_r4(chk, prog, rid='C05.R4'):
                     if isinstance(v, ast.Call) and (call_name(v) or
                                                     '').endswith(
                                                         'check_exprs'):
-                        checked = (unparse(v.args[0]), ds[0])
-        ok = checked is not None
+                        cands.append((unparse(v.args[0]), ds[0]))
+        ok = bool(cands)
         msg = ('a result is tagged successful without being dominated by a '
                'true outcome of checker.check_exprs')
         if ok:
             ok = isinstance(succ, ast.Constant) and succ.value is True or \
                 unparse(succ) != 'False'
-            same = unparse(ex) == checked[0]
-            # no redefinition of the list between the check and the tag
-            if same and isinstance(ex, ast.Name):
-                if checked[1] is not None:
-                    d1 = (RD.get(checked[1]) or {}).get(ex.id)
-                else:
-                    d1 = None
-                d2 = (RD.get(n) or {}).get(ex.id)
-                if d1 is not None and d1 != d2:
-                    same = False
+            same = False
+            for checked in cands:
+                same1 = unparse(ex) == checked[0]
+                # no redefinition of the list between the check and the tag
+                if same1 and isinstance(ex, ast.Name):
+                    if checked[1] is not None:
+                        d1 = (RD.get(checked[1]) or {}).get(ex.id)
+                    else:
+                        d1 = None
+                    d2 = (RD.get(n) or {}).get(ex.id)
+                    if d1 is not None and d1 != d2:
+                        same1 = False
+                same = same or same1
             ok = ok and same
             msg = (f'the list shipped as accepted ("{unparse(ex)}") is not '
-                   f'the very list that was checked ("{checked[0]}"): the '
+                   'the very list that was checked ("'
+                   f'{sorted(c[0] for c in cands)[0][:80]}"): the '
                    'parent adopts something the command never ran on')
         chk.check(rid, where, node, ok, msg, loc=m.loc(node),
                   nontrivial=True,
@@ -597,8 +604,10 @@ def rule_r4(chk, prog, rid='C05.R4'):
     hm = prog.mod('strategy_hierarchical')
     cc = hm.func('Consumer.check')
     ap = [c for c in calls_in(cc) if call_name(c) == 'apply_simp']
-    ok = len(ap) == 1 and unparse(ap[0].args[0]) == \
-        'pickle.loads(task.exprs)'
+    from ..astutil import expand_locals
+    tpar = params_of(cc)[-1]
+    ok = len(ap) == 1 and unparse(expand_locals(cc, ap[0].args[0])) == \
+        f'pickle.loads({tpar}.exprs)'
     chk.check(rid, 'strategy_hierarchical.Consumer.check',
               'proposal applied to the task\'s own base', ok,
               'the consumer applies the proposal to something other than '
